@@ -80,6 +80,30 @@ structure Prob (α : Type) (ns nc : Nat) where
   Q : Nat → Mat α (ns + nc) (ns + nc)
   p : Nat → Vec α (ns + nc)
 
+/-- an argument given either once for the whole horizon (`Q.ndim == 3`, `p.ndim == 2`) or per time step -/
+inductive PerStep (β : Type) where
+  | once (v : β)
+  | each (f : Nat → β)
+
+/-- `torch.tile(arg.unsqueeze(time axis), (1, T, …))`: the same value at every step -/
+def PerStep.get {β : Type} : PerStep β → Nat → β
+  | .once v, _ => v
+  | .each f, t => f t
+
+/-- `LQR.__init__(system, Q, p, T)`: the two `if … .ndim == …: tile` statements, each argument on its own -/
+def Prob.ofArgs {ns nc : Nat} (T : Nat) (Q : PerStep (Mat α (ns + nc) (ns + nc))) (p : PerStep (Vec α (ns + nc))) :
+    Prob α ns nc := ⟨T, Q.get, p.get⟩
+
+/-- LTI / LTV with the optional constant input: `LTI.state_transition` returns `z if self.c1 is None else z + self.c1` -/
+def Sys.linearOpt {ns nc : Nat} (A : Nat → Mat α ns ns) (B : Nat → Mat α ns nc) (c1 : Option (Nat → Vec α ns)) : Sys α ns nc where
+  f := fun t x u =>
+    let z := vadd (mulVec (A t) x) (mulVec (B t) u)
+    match c1 with
+    | none => z
+    | some c => vadd z (c t)
+  A := fun t _ _ => A t
+  B := fun t _ _ => B t
+
 /-- `L = cholesky(Quu)`, `cholesky_solve(·, L)` with a matrix / a vector right-hand side. External kernel:
 the theorems assume `Quu * solveM Quu Y = Y`, `Quu *ᵥ solveV Quu y = y` for positive-definite `Quu`. -/
 structure Solver (α : Type) (ns nc : Nat) where
@@ -294,6 +318,19 @@ def Stepper.step (s : Stepper α) (loss : α) : Stepper α :=
   let pc := if s.slow loss then s.patienceCount + 1 else 0
   let c3 := if s.patience ≤ pc then false else c2
   { s with steps := steps, last := some loss, patienceCount := pc, continual := c3 }
+
+/-- `ReduceToBason(steps, patience=5, decreasing=1e-3, tol=1e-5)` -/
+def Stepper.new (steps : Int) (patience : Nat) (decreasing tol : α) : Stepper α :=
+  ⟨steps, patience, decreasing, tol, none, 0, 0, true⟩
+
+/-- the stepper `MPC.__init__` builds when `stepper is None`: `ReduceToBason(steps=10)` -/
+def Stepper.default : Stepper α := Stepper.new 10 5 (q 1 1000) (q 1 100000)
+
+/-- `MPC.__init__`: `self.stepper = ReduceToBason(steps=10) if stepper is None else stepper; self.stepper.max_steps -= 1`
+(n-1 loops, the last solve is made outside the loop) -/
+def mpcInit (st : Option (Stepper α)) : Stepper α :=
+  let s := st.getD Stepper.default
+  { s with maxSteps := s.maxSteps - 1 }
 
 /-! ### `MPC.forward` -/
 
